@@ -560,3 +560,112 @@ Proof.
     * discriminate.
     * intros _ H1. destruct (P6 H1) as (_ & E & Hh1 & Hn1). rewrite <- E. repeat split; eauto. lia.
 Qed.
+
+(* ---------- pop / truncate: only the handle-local length changes ---------- *)
+Definition pop_text (T : list N) : list N := firstn (length T - length (last_char T)) T.
+
+Record pop_post (m : mem) (own : bufid -> N) (r : repr) (m' : mem) (r' : repr) (res : option N) : Prop := {
+  po_step : step_ok m own r m' r';
+  po_heap : heap m' = heap m /\ nreq m' = nreq m /\ (forall b, names r' b = names r b) /\ is_heap r' = is_heap r /\ is_static r' = is_static r;
+  po_none : text_of m r = [] -> res = None /\ r' = r;
+  po_some : text_of m r <> [] ->
+            res = Some (decode_cp (last_char (text_of m r))) /\ text_of m' r' = pop_text (text_of m r);
+}.
+
+Lemma names_same_counted own r r' : (forall b, names r' b = names r b) -> counted own r -> counted own r'.
+Proof. intros H Hc b Hb. apply Hc. rewrite <- H. exact Hb. Qed.
+
+Lemma with_len_step m own r n m' :
+  MI (heap m) own -> handle_ok (heap m) (statics m) r -> counted own r ->
+  n <= repr_len r -> Valid (firstn (N.to_nat n) (text_of m r)) ->
+  same_env m m' -> heap m' = heap m ->
+  step_ok m own r m' (with_len r n) /\ text_of m' (with_len r n) = firstn (N.to_nat n) (text_of m r).
+Proof.
+  intros HM Hr Hc Hn Hv He Hh. destruct (with_len_shrink_ok m r n Hr Hn Hv) as (H1 & H2 & H3). split.
+  - apply step_ok_local; auto. intros b. apply names_with_len.
+  - rewrite (text_of_same m m' _ He Hh). exact H2.
+Qed.
+Lemma is_heap_with_len r n : is_heap (with_len r n) = is_heap r. Proof. destruct r; reflexivity. Qed.
+Lemma is_static_with_len r n : is_static (with_len r n) = is_static r. Proof. destruct r; reflexivity. Qed.
+
+Lemma pop_wp m own r (Q : out (repr * option N) -> mem -> Prop) :
+  MI (heap m) own -> handle_ok (heap m) (statics m) r -> counted own r ->
+  (forall m' r' res, pop_post m own r m' r' res -> Q (OVal (r', res)) m') ->
+  wp (pop r) Q m.
+Proof.
+  intros HM Hr Hc HQ. unfold pop.
+  apply wp_bind. eapply as_bytes_wp; eauto. intros m0 He0 Hh0 Hn0. unfold lift.
+  pose proof (text_len m r Hr) as HlT. pose proof (text_valid m r Hr) as HvT.
+  remember (text_of m r) as T eqn:ET0.
+  destruct T as [|c0 T0] eqn:ET.
+  - apply wp_ret. apply HQ. split.
+    + apply step_ok_refl; auto.
+    + auto.
+    + auto.
+    + intros Hx. congruence.
+  - rewrite <- ET in *. assert (Hne : T <> []) by (rewrite ET; discriminate).
+    destruct (valid_last_char T HvT Hne) as (pre & Epre & Hcok & Hvpre).
+    set (ch := last_char T) in *. rewrite (encode_decode ch Hcok).
+    assert (Hlen : length T = (length pre + length ch)%nat) by (rewrite Epre at 1; apply app_length).
+    apply wp_bind. apply truncate_unchecked_wp.
+    { pose proof (handle_len_bound m own r HM Hr). lia. }
+    unfold lift. apply wp_ret.
+    assert (Hn : repr_len r - len ch <= repr_len r) by lia.
+    assert (Hfn : firstn (N.to_nat (repr_len r - len ch)) T = pre).
+    { rewrite <- HlT. replace (N.to_nat (len T - len ch)) with (length pre) by (unfold len; lia).
+      rewrite Epre. apply firstn_app_exact. }
+    assert (Hv : Valid (firstn (N.to_nat (repr_len r - len ch)) (text_of m r))) by (rewrite <- ET0, Hfn; exact Hvpre).
+    destruct (with_len_step m own r (repr_len r - len ch) m0 HM Hr Hc Hn Hv He0 Hh0) as (S1 & S2).
+    apply HQ. split.
+    + exact S1.
+    + repeat split; auto; [apply names_with_len|apply is_heap_with_len|apply is_static_with_len].
+    + intros Hx. congruence.
+    + intros _. rewrite S2. rewrite <- ET0. split; [reflexivity|]. rewrite Hfn. unfold pop_text. fold ch.
+      replace (length T - length ch)%nat with (length pre) by lia. rewrite Epre. symmetry. apply firstn_app_exact.
+Qed.
+
+Record truncate_post (m : mem) (own : bufid -> N) (r : repr) (n : N) (m' : mem) (r' : repr) (res : res unit) : Prop := {
+  tr_step : step_ok m own r m' r';
+  tr_heap : heap m' = heap m /\ nreq m' = nreq m /\ (forall b, names r' b = names r b) /\ is_heap r' = is_heap r /\ is_static r' = is_static r;
+  tr_noop : repr_len r <= n -> res = ROk tt /\ r' = r;
+  tr_panic : n < repr_len r -> is_char_boundary (text_of m r) n = false -> res = RPanic PIndex /\ r' = r;
+  tr_ok : n < repr_len r -> is_char_boundary (text_of m r) n = true ->
+          res = ROk tt /\ text_of m' r' = firstn (N.to_nat n) (text_of m r);
+}.
+
+Lemma truncate_wp m own r n (Q : out (repr * res unit) -> mem -> Prop) :
+  MI (heap m) own -> handle_ok (heap m) (statics m) r -> counted own r ->
+  (forall m' r' res, truncate_post m own r n m' r' res -> Q (OVal (r', res)) m') ->
+  wp (truncate r n) Q m.
+Proof.
+  intros HM Hr Hc HQ. unfold truncate, cond_truncate_noop.
+  destruct (N.leb_spec (repr_len r) n) as [Hge|Hlt].
+  - apply wp_ret. apply HQ. split.
+    + apply step_ok_refl; auto.
+    + auto.
+    + auto.
+    + intros Hx. lia.
+    + intros Hx. lia.
+  - apply wp_bind. eapply as_bytes_wp; eauto. intros m0 He0 Hh0 Hn0. unfold lift.
+    set (T := text_of m r) in *.
+    pose proof (text_valid m r Hr) as HvT. fold T in HvT.
+    destruct (is_char_boundary T n) eqn:Hbd; cbn [negb].
+    + destruct (valid_split_boundary T n HvT Hbd) as (Hv1 & _).
+      apply wp_bind. apply truncate_unchecked_wp.
+      { pose proof (handle_len_bound m own r HM Hr). lia. }
+      unfold lift. apply wp_ret.
+      assert (Hn : n <= repr_len r) by lia.
+      destruct (with_len_step m own r n m0 HM Hr Hc Hn Hv1 He0 Hh0) as (S1 & S2).
+      apply HQ. split.
+      * exact S1.
+      * repeat split; auto; [apply names_with_len|apply is_heap_with_len|apply is_static_with_len].
+      * intros Hx. lia.
+      * intros _ Hx. change (is_char_boundary T n = false) in Hx. congruence.
+      * intros _ _. auto.
+    + apply wp_ret. apply HQ. split.
+      * apply step_ok_refl; auto.
+      * auto.
+      * intros Hx. lia.
+      * intros _ _. auto.
+      * intros _ Hx. change (is_char_boundary T n = true) in Hx. congruence.
+Qed.
